@@ -101,7 +101,13 @@ def g_history(draw):
         # history: after some operations only the floors invariant (which reads nothing derived) is looked at
         op["observe"] = gen.choice(draw, [True, True, False])
         ops.append(op)
-    return {"p": p, "probe": probe, "train": train, "ops": ops, "map": is_map,
+    # a machine that was only given means (and floors, possibly above the unit variances fit() falls back to) before
+    # its first training step
+    bare = (not is_map) and gen.choice(draw, [False, False, False, True])
+    if bare:
+        ops.insert(0, {"op": "em_step", "upd": [True, bool(gen.boolean(draw)), False], "observe": True})
+    return {"p": p, "probe": probe, "train": train, "ops": ops, "map": is_map, "bare": bare,
+            "bare_floor": gen.choice(draw, [2.5, 40.0, 0.5, float(EPS)]),
             "C2": gen.integer(draw, 1, 5)}
 
 
@@ -152,10 +158,16 @@ def c_history(ctx, case):
     if case["map"]:
         prior = sut.make_gmm(p)
         g = GMMMachine(C, trainer="map", ubm=prior, max_fitting_steps=1, convergence_threshold=1e-5)
+    elif case.get("bare"):
+        g = GMMMachine(C, max_fitting_steps=1, convergence_threshold=1e-5)
+        g.variance_thresholds = float(case["bare_floor"])
+        g.means = np.array(p["means"], float)
     else:
         g = sut.make_gmm(p, max_fitting_steps=1, convergence_threshold=1e-5)
-    check_invariant(ctx, g, probe, "construction")
+    if not case.get("bare"):
+        check_invariant(ctx, g, probe, "construction")
     names = [o["op"] for o in case["ops"]]
+    vars_unset = bool(case.get("bare"))
     vars_set = True
     floor_after_var = False
     weights_after_ll = False
@@ -177,7 +189,7 @@ def c_history(ctx, case):
             g.variances = np.array(op["var"], float)
             floor_after_var = True
         elif name == "em_step":
-            if not (np.asarray(g.variances) > 0).all() or not (np.asarray(g.variance_thresholds) > 0).all():
+            if (not vars_unset and not (np.asarray(g.variances) > 0).all()) or not (np.asarray(g.variance_thresholds) > 0).all():
                 # training needs strictly positive floors (a collapsing component has ML variance 0) and
                 # strictly positive variances: not a valid training state, skipped and counted
                 ctx.event("em_step skipped (zero floor or zero variance)")
@@ -185,6 +197,7 @@ def c_history(ctx, case):
             g.update_means, g.update_variances, g.update_weights = op["upd"]
             g.max_fitting_steps = 1
             g.fit(train)
+            vars_unset = False
         elif name == "lend_to_other_machine":
             # ANOTHER machine, with floors above some or all of this machine's variances, is given the arrays this
             # machine shows (model.variances = ubm.variances, as the repository's own tests do) and may be trained: the
